@@ -466,8 +466,23 @@ def opt_is_some(v):
     return I.B('atom', nf.app_atom('is_some', I.frozen(p)))
 
 
+def opt_inner_ty(v):
+    v = deref(v)
+    t = getattr(v, 'ty', None)
+    if isinstance(t, str):
+        t = t.strip()
+        for pre in ('&mut ', '&'):
+            if t.startswith(pre):
+                t = t[len(pre):]
+        if t.startswith('std::option::Option<') and t.endswith('>'):
+            return t[len('std::option::Option<'):-1]
+    return '?'
+
+
 def opt_payload(v, ty='?'):
     k, p = opt_parts(v)
+    if ty in (None, '?'):
+        ty = opt_inner_ty(v)
     if k == 'some':
         return p
     if k == 'ite':
@@ -623,3 +638,97 @@ def _from_elem(ip, st, t, a, rt):
 @reg('std::boxed::Box::<T>::new')
 def _box_new(ip, st, t, a, rt):
     return a[0]
+
+
+# --- glam DVec2 (glam-0.27 f64/dvec2.rs) -------------------------------------------------------------
+def c2(v):
+    return comps(v, 'xy')
+
+
+def V2(x, y):
+    return I.St('glam::DVec2', 'DVec2', {'x': as_rf(x), 'y': as_rf(y)})
+
+
+@reg('glam::DVec3::truncate')
+def _truncate(ip, st, t, a, rt):
+    p = c3(a[0])
+    return V2(p[0], p[1])
+
+
+@reg('glam::DVec2::new')
+def _v2new(ip, st, t, a, rt):
+    return V2(a[0], a[1])
+
+
+@reg('glam::DVec2::extend')
+def _v2extend(ip, st, t, a, rt):
+    p = c2(a[0])
+    return V3(p[0], p[1], as_rf(a[1]))
+
+
+def _vec2op(fn):
+    def h(ip, st, t, a, rt):
+        x, y = a
+        isv = lambda v: not isinstance(deref(v), RF)
+        if isv(x) and isv(y):
+            p, q = c2(x), c2(y)
+            return V2(*[fn(p[i], q[i]) for i in range(2)])
+        if isv(x):
+            p = c2(x)
+            s = as_rf(deref(y))
+            return V2(*[fn(p[i], s) for i in range(2)])
+        s = as_rf(deref(x))
+        q = c2(y)
+        return V2(*[fn(s, q[i]) for i in range(2)])
+    return h
+
+
+H['<glam::DVec2 as std::ops::Add>::add'] = _vec2op(lambda a, b: a + b)
+H['<glam::DVec2 as std::ops::Sub>::sub'] = _vec2op(lambda a, b: a - b)
+H['<glam::DVec2 as std::ops::Mul>::mul'] = _vec2op(lambda a, b: a * b)
+H['<glam::DVec2 as std::ops::Mul<f64>>::mul'] = _vec2op(lambda a, b: a * b)
+H['<glam::DVec2 as std::ops::Div<f64>>::div'] = _vec2op(_div)
+H['glam::f64::dvec2::<impl std::ops::Mul<glam::DVec2> for f64>::mul'] = _vec2op(lambda a, b: a * b)
+
+
+@reg('glam::DVec2::dot')
+def _v2dot(ip, st, t, a, rt):
+    p, q = c2(a[0]), c2(a[1])
+    return p[0] * q[0] + p[1] * q[1]
+
+
+@reg('glam::DVec2::length_squared')
+def _v2len2(ip, st, t, a, rt):
+    p = c2(a[0])
+    return p[0] * p[0] + p[1] * p[1]
+
+
+@reg('glam::DVec2::length')
+def _v2len(ip, st, t, a, rt):
+    p = c2(a[0])
+    return nf.fn_sqrt(p[0] * p[0] + p[1] * p[1])
+
+
+@reg('glam::DVec2::distance_squared')
+def _v2dist2(ip, st, t, a, rt):
+    p, q = c2(a[0]), c2(a[1])
+    d = [p[i] - q[i] for i in range(2)]
+    return d[0] * d[0] + d[1] * d[1]
+
+
+@reg('glam::DVec2::distance')
+def _v2dist(ip, st, t, a, rt):
+    p, q = c2(a[0]), c2(a[1])
+    d = [p[i] - q[i] for i in range(2)]
+    return nf.fn_sqrt(d[0] * d[0] + d[1] * d[1])
+
+
+@reg('std::option::Option::<T>::get_or_insert_with')
+def _get_or_insert_with(ip, st, t, a, rt):
+    # The initialiser closure is evaluated once for its events (which record what a newly created entry is
+    # built from); the slot update itself stays an opaque, congruent call.
+    try:
+        call_fn_value(ip, a[1], [], '?')
+    except (I.Diverge, I.AnalysisIncomplete):
+        pass
+    return NotImplemented
